@@ -52,7 +52,7 @@ def all_literal(tree):
     return names
 
 
-def position_rules(ptree, qtree):
+def position_rules(ptree, qtree, opts=None):
     """docstrings stay the first statement of their body; from __future__ imports stay ahead of all other code"""
     out = []
 
@@ -63,7 +63,7 @@ def position_rules(ptree, qtree):
                 res.append((type(n).__name__, n.body))
         return res
     pb, qb = bodies(ptree), bodies(qtree)
-    if len(pb) == len(qb):
+    if len(pb) == len(qb) and not (opts or {}).get('remove_literal_statements'):
         for (kp, a), (kq, b) in zip(pb, qb):
             if a and matcher.is_docstring_stmt(a[0]):
                 if not (b and matcher.is_docstring_stmt(b[0]) and b[0].value.value == a[0].value.value):
@@ -210,7 +210,7 @@ def run_case(case):
         for p in r.problems:
             if p['kind'] in C06_KINDS:
                 viol(None, '%s: %s' % (p['kind'], p['detail']))
-        for msg in position_rules(ptree, qtree):
+        for msg in position_rules(ptree, qtree, opts):
             viol(None, msg)
         consts = [a for a in r.aliases if a['kind'] == 'const']
         if consts:
